@@ -21,6 +21,7 @@ class Exec(object):
         self.forks = 0
         self.obligations = []       # (name, state, clause, outcome) emitted during execution (loop invariants, monitor rule, requires of callees)
         self.generator = False      # unit is a generator function: `yield e` appends to ghost `yielded`
+        self.interfere = None       # optional callback(ex, state, stmt) applied before every statement (thorough C04: thread interference)
         self.depth = 0
         self.lib = {}               # dotted name -> model(ex, st, args, kwargs, node) -> outcomes   (filled by pyvc.lib)
         self.strm = {}              # str method models
@@ -743,6 +744,8 @@ class Exec(object):
                 m = getattr(self, 's_' + type(n).__name__, None)
                 if m is None:
                     raise Unsupported('stmt ' + type(n).__name__)
+                if self.interfere is not None:
+                    self.interfere(self, s1, n)        # statement-level interference mode: other threads may act between two statements
                 nxt += m(n, s1)
             outs = nxt
         return outs
